@@ -1,6 +1,6 @@
 (* C05 -- Control-plane interpretation is independent of segmentation and interleaving. *)
-From WT.Model Require Import Base Varint Ids Frame Async Select.
-From WT.Proofs Require Import VarintP FrameP AsyncP MachineP SelectP.
+From WT.Model Require Import Base Varint Ids Frame Async StreamTS Wire Qpack Session Runner Select.
+From WT.Proofs Require Import VarintP FrameP AsyncP MachineP SelectP RunnerP.
 
 (* segmentation: with no cancellation, every split of the bytes into packets and every pattern
    of not-ready results gives the same outcome after consuming the same bytes *)
@@ -33,6 +33,14 @@ Theorem C05_refuted_on_pinned_tree :
     drive_c evs gv_init (mksrc data sch t) <> drive_c (filter is_poll evs) gv_init (mksrc data sch t) /\
     length (filter (fun e => negb (is_poll e)) evs) = 1%nat.
 Proof. exact select_cancel_refuted. Qed.
+
+(* the client's hand-off of the session stream from Endpoint::connect to the driver: the bytes the
+   peer sent after the response HEADERS (e.g. a close capsule in the same packet) are exactly what
+   the session runner sees: none is consumed or dropped by the code that read the response *)
+Theorem C05_client_handoff_keeps_every_byte :
+  forall payload rest t, len payload <= max_parse_payload ->
+    client_session_rest (frame_write (mkframe KHeaders payload None) ++ rest) t = Some rest.
+Proof. exact client_rest_after_response. Qed.
 
 Example C05_example :
   cancel_safe [EvCancel; EvPoll; EvPoll] gv_init (mksrc [64; 200] [Chunk 1] Fin) = true /\
